@@ -66,6 +66,13 @@ def handle (j : Json) : Json :=
   if op == "sched" then
     let s : SchedSt := { nodes := (jarr j "nodes").map nodeOf }
     jl (runIters c s true ((jarr j "iters").map iterOf) [])
+  else if op == "runok" then
+    -- does the script meet the hypothesis of the whole-history theorems (C01_history, C03_history_*)?
+    let s : SchedSt := { nodes := (jarr j "nodes").map nodeOf }
+    let its := (jarr j "iters").map iterOf
+    let fin := (runLoop c s true its []).1
+    Json.mkObj [("run_ok", Json.bool (runOK c s true its)), ("held", jn fin.held.length),
+                ("restored", Json.bool (fin.nodes == s.nodes))]
   else if op == "find" then
     -- a single `_find_resources` call
     match findResources (nodeOf (jget j "node")) (jnat j "n") (jnat j "cps") (jnat j "gpr") (jnat j "lfs") (jnat j "mem") (jbool j "partial") with
